@@ -845,3 +845,27 @@ package client
 //@   ensures encErr == nil && !rfail(r0) ==> decErr == nil
 //@   ensures encErr == nil && decErr == nil ==> !desync(r0) && rcount(r0) - old(rcount(r0)) == wcount(w0) - old(wcount(w0))
 //@   ensures encErr == nil && decErr == nil ==> y.ChannelID == x.ChannelID && y.Version == x.Version && y.Reason == x.Reason
+
+// Update messages with one signature: the signature is written as its bytes and read back by the wallet backend's DecodeSig
+// (interface contract: it reads exactly the bytes of one signature).
+//@ pred sigBytesSame(y wallet.Sig, x wallet.Sig) = len(y) == len(x) && forall i int :: 0 <= i && i < len(x) ==> y[i] == x[i]
+//@ pred updMsgWFc(x ChannelUpdateMsg) = x.State != nil && stateWFc(*x.State)
+//@ pred updMsgEqc(y ChannelUpdateMsg, x ChannelUpdateMsg) = y.State != nil && stateEqc(*y.State, *x.State) && y.ActorIdx == x.ActorIdx && sigBytesSame(y.Sig, x.Sig)
+//@ codec ChannelUpdateMsg wf updMsgWFc eq updMsgEqc by verifRoundTripChannelUpdateMsg
+//@ func verifRoundTripChannelUpdateMsg
+//@   tokenmodel
+//@   requires w0 != nil && r0 != nil && updMsgWFc(x)
+//@   modifies *
+//@   inlines (ChannelUpdateMsg).Encode, (*ChannelUpdateMsg).Decode
+//@   ensures encErr == nil && !rfail(r0) && !rejected(r0) ==> decErr == nil
+//@   ensures encErr == nil && decErr == nil ==> !desync(r0) && rcount(r0) - old(rcount(r0)) == wcount(w0) - old(wcount(w0))
+//@   ensures encErr == nil && decErr == nil ==> updMsgEqc(y, x)
+
+//@ func verifRoundTripChannelUpdateAccMsg
+//@   tokenmodel
+//@   requires w0 != nil && r0 != nil
+//@   modifies *
+//@   inlines (ChannelUpdateAccMsg).Encode, (*ChannelUpdateAccMsg).Decode
+//@   ensures encErr == nil && !rfail(r0) && !rejected(r0) ==> decErr == nil
+//@   ensures encErr == nil && decErr == nil ==> !desync(r0) && rcount(r0) - old(rcount(r0)) == wcount(w0) - old(wcount(w0))
+//@   ensures encErr == nil && decErr == nil ==> y.ChannelID == x.ChannelID && y.Version == x.Version && sigBytesSame(y.Sig, x.Sig)
